@@ -131,6 +131,15 @@ impl HashSet {
             )));
         }
 
+        // the table is allocated from header fields: make sure the image can back them first
+        let stored = if compact { coupon_count } else { 1usize << lg_arr };
+        if cursor.remaining() < 4 * stored {
+            return Err(Error::insufficient_data(format!(
+                "expected {stored} coupons, image holds {} bytes",
+                cursor.remaining()
+            )));
+        }
+
         if compact {
             // Compact mode: only couponCount coupons are stored
             // Create a new hash set and insert coupons one by one
